@@ -134,11 +134,12 @@ theorem ply_exact_12100 {s : Bytes} {p : Position} (h : parseFen s = .ok (.ok p)
   simp only [Gen.maxFullMoveCounter] at hn2
   split <;> omega
 
-/-- the spec-level game from an accepted FEN: ply after `k` legal moves of the rules -/
-theorem ply_exact_spec (hL : LegalLink) {s : Bytes} {p : Position} (h : parseFen s = .ok (.ok p)) (hS : OppSafe p)
+/-- the spec-level game from an accepted FEN: ply after `k` legal moves of the rules. (No "side not to move is
+    not in check" hypothesis any more: the repaired loader guarantees it, `C08.fen_oppSafe`.) -/
+theorem ply_exact_spec (hL : LegalLink) {s : Bytes} {p : Position} (h : parseFen s = .ok (.ok p))
     {sms : List Spec.Move} {P' : Spec.Pos} (hplay : Spec.play (abs p) sms = some P') (hk : sms.length ≤ 12100) :
     ∃ ms q, ms.map absMove = sms ∧ playM p ms = .ok q ∧ abs q = P' ∧ q.ply = p.ply + sms.length := by
-  obtain ⟨ms, q, hmap, _, hq, _, _, habs⟩ := play_spec hL sms (C02.fen_inv h) hS hplay
+  obtain ⟨ms, q, hmap, _, hq, _, _, habs⟩ := play_spec hL sms (C02.fen_inv h) (C08.fen_oppSafe h) hplay
   have hlen : ms.length = sms.length := by rw [← hmap, List.length_map]
   refine ⟨ms, q, hmap, hq, habs, ?_⟩
   rw [← hlen]
